@@ -203,36 +203,45 @@ class Flow:
                            sum((o.breaks for o in outs), []), sum((o.continues for o in outs), []))
         return Outcome(self.transfer(st, state))
 
+    quiet = 0          # > 0 while a loop body is being iterated towards its fixpoint: observation hooks must not record
+
+    def record(self, lst: list, item) -> None:
+        """Append an observation only on the final (stable) pass over enclosing loops."""
+        if self.quiet == 0:
+            lst.append(item)
+
     def _loop(self, st, state, is_for: bool) -> Outcome:
         head = state
-        if is_for:
-            head = self.transfer(ast.Expr(value=st.iter), state) if False else state
-        all_breaks = []
         it = 0
-        while True:
-            it += 1
-            if is_for:
-                body_in = self.bind_for(st, head)
-            else:
-                body_in = self._refine(st.test, True, head)
-            if body_in is None:
-                back = None
-                out = Outcome(None)
-            else:
-                out = self.block(st.body, body_in)
-                back = self._join_all([out.normal] + out.continues)
-            new_head = self._join(state, back) if back is not None else head
-            if new_head == head or it >= self.MAX_ITER:
-                if back is not None:
-                    self.on_back_edge(st, back)
-                all_breaks = out.breaks
+        # phase 1: iterate quietly to the fixpoint of the loop-head state
+        self.quiet += 1
+        try:
+            while True:
+                it += 1
+                body_in = self.bind_for(st, head) if is_for else self._refine(st.test, True, head)
+                if body_in is None:
+                    back = None
+                else:
+                    out = self.block(st.body, body_in)
+                    back = self._join_all([out.normal] + out.continues)
+                new_head = self._join(state, back) if back is not None else head
+                if new_head == head or it >= self.MAX_ITER:
+                    head = new_head
+                    break
                 head = new_head
-                break
-            head = new_head
-        if is_for:
-            exhausted = head
-        else:
-            exhausted = self._refine(st.test, False, head)
+        finally:
+            self.quiet -= 1
+        self.loop_iterations = max(getattr(self, "loop_iterations", 0), it)
+        # phase 2: one recording pass from the stable head
+        body_in = self.bind_for(st, head) if is_for else self._refine(st.test, True, head)
+        all_breaks = []
+        if body_in is not None:
+            out = self.block(st.body, body_in)
+            back = self._join_all([out.normal] + out.continues)
+            all_breaks = out.breaks
+            if back is not None:
+                self.on_back_edge(st, back)
+        exhausted = head if is_for else self._refine(st.test, False, head)
         if exhausted is not None:
             self.on_loop_exhausted(st, exhausted)
         o_else = self.block(st.orelse, exhausted) if (st.orelse and exhausted is not None) else Outcome(exhausted)
